@@ -102,17 +102,19 @@ class Box:
             f.write(R._template())
         self.uri = "sqlite:///" + path
 
-    def scheduler(self, config_context=None):
+    def config(self, config_context=None, second_db=False):
         import json
-
-        from redun import Scheduler
-        from redun.config import Config
-        cfg = {"backend": {"db_uri": self.uri},
+        cfg = {"backend": {"db_uri": self.uri.replace("redun.db", "redun2.db") if second_db else self.uri},
                "executors.default": {"type": "local", "max_workers": "4", "mode": "thread", "start_method": "fork"},
                "executors.process": {"type": "local", "max_workers": "2", "mode": "process", "start_method": "fork"}}
         if config_context:
             cfg["scheduler"] = {"context": json.dumps(config_context)}
-        s = Scheduler(config=Config(cfg))
+        return cfg
+
+    def scheduler(self, config_context=None):
+        from redun import Scheduler
+        from redun.config import Config
+        s = Scheduler(config=Config(self.config(config_context)))
         s.load()
         return s
 
@@ -342,25 +344,29 @@ def context_case(ctx, G, R, name, e, sx, scen, caller, ne, reps):
     case = {"program": name, "expr": sx, "context_case": True, "config_context": cfg, "run_context": runc, "update_context": ov,
             "caller": caller, "new_execution": ne}
 
-    def one(expr):
-        box = Box(R)
-        try:
-            o, _ = R.run_free(expr, sched=box.scheduler(cfg), timeout=90, context=dict(runc))
+    box = Box(R)
+    try:
+        def one(expr):
+            o, _ = R.run_free(expr, sched=box.scheduler(cfg), timeout=120, context=dict(runc))
             return o
-        finally:
-            box.close()
 
-    def wrap(t):
-        if caller == "noprov":
-            t = t.options(prov=False)
-        return t.update_context(dict(ov)) if ov else t
+        def wrap(t):
+            if caller == "noprov":
+                t = t.options(prov=False)
+            return t.update_context(dict(ov)) if ov else t
 
-    if caller == "top":
-        direct = one(R.clone(e))
-        sub = one(subrun(R.clone(e), executor="default", new_execution=ne))
-    else:
-        direct = one(wrap(L.direct_of)(quote(R.clone(e))))
-        sub = one(wrap(L.sub_of)(quote(R.clone(e)), ne))
+        if caller == "top":
+            direct = one(R.clone(e))
+            sub = one(subrun(R.clone(e), executor="default", new_execution=ne))
+        elif caller == "noprov":
+            # the sub-scheduler of a prov=False caller gets its own database (as in redun's test_subrun_no_prov)
+            direct = one(wrap(L.direct_of)(quote(R.clone(e))))
+            sub = one(wrap(L.sub_of_cfg)(quote(R.clone(e)), ne, box.config(cfg, second_db=True)))
+        else:
+            direct = one(wrap(L.direct_of)(quote(R.clone(e))))
+            sub = one(wrap(L.sub_of)(quote(R.clone(e)), ne))
+    finally:
+        box.close()
     if direct not in outs and not has_unk:
         ctx.mismatch("direct evaluation under a context is not among the model's outcomes", case=case,
                      model=sorted(map(G.show, outs)), impl=G.show(direct), signature="C38-context-direct-differs-from-model")
